@@ -169,6 +169,7 @@ def vobs_impl(v):
         'items=' + show_list([enc(v.item(i)) for i in range(-(n + 1), n + 2)]),
         'seq=' + show_list(seq),
         'reported=' + show_list(['%s/%s' % (enc(k), enc(v.getVariableValue(k))) for k in v.keys()]),
+        'reportedq=' + show_list(['%s/%s' % (enc(k), enc(v.getVariableValue(G.requote(k)))) for k in v.keys()]),
         'serialized=' + show_list(['%s/%s' % (enc(a), enc(b)) for a, b in ser]),
         'text=' + enc(v.cssText)])
 
@@ -385,6 +386,10 @@ class Session:
         # point queries
         for q in G.queries_for(op, self.rng):
             self.query(style, q)
+        # a listed (normalised) name looked up by a literal spelling of it (`requote`)
+        for kname in style.keys()[:3]:
+            self.emit('rq %s' % enc(kname), enc(G.requote(kname)), ('requote', kname))
+            self.emit('gvq %s' % enc(kname), enc(style.getPropertyValue(G.requote(kname))), ('listed name', kname))
 
     def query(self, style, q):
         k = q[0]
